@@ -564,7 +564,7 @@ Qed.
 (* a freshly created claim (no pods, no requests) satisfies the invariant *)
 Lemma nc_inv_init wk cat n : nc_pods n = [] -> nc_requests n = [] -> nc_inv wk cat n.
 Proof.
-  intros Hp Hr. unfold nc_inv. rewrite Hp, Hr. repeat split; try (intros ? []); try reflexivity. intros H. congruence.
+  intros Hp Hr. unfold nc_inv. rewrite Hp, Hr. split; [intros k; reflexivity|]. split; [intros p []|]. intros Hc. congruence.
 Qed.
 
 (* ---- from the invariant to Kubernetes admissibility of every launch option ---- *)
@@ -625,12 +625,13 @@ Qed.
 Lemma ex_step_preserves all rem0 n p : pod_wf p -> ex_inv rem0 n -> ex_inv rem0 (fst (ex_step all n p)).
 Proof.
   intros [Wp Wt] (I1 & I0 & I2). unfold ex_step, ex_can_add.
-  destruct (tolerates_all (en_taints n) (p_tols p)) eqn:T; simpl; [|repeat split; assumption].
-  destruct (conflicts (en_ports n) (p_key p) (p_ports p)) eqn:C; simpl; [repeat split; assumption|].
-  destruct (fits (p_requests p) (en_remaining n)) eqn:F; simpl; [|repeat split; assumption].
-  destruct (compatible [] (en_reqs n) (pod_reqs all p)) eqn:Co; simpl; [|repeat split; assumption].
+  destruct (tolerates_all (en_taints n) (p_tols p)) eqn:T; cbn [negb fst]; [|split; [exact I1|split; [exact I0|exact I2]]].
+  destruct (conflicts (en_ports n) (p_key p) (p_ports p)) eqn:C; cbn [negb fst]; [split; [exact I1|split; [exact I0|exact I2]]|].
+  destruct (fits (p_requests p) (en_remaining n)) eqn:F; cbn [negb fst]; [|split; [exact I1|split; [exact I0|exact I2]]].
+  destruct (compatible [] (en_reqs n) (pod_reqs all p)) eqn:Co; cbn [negb fst]; [|split; [exact I1|split; [exact I0|exact I2]]].
+  unfold ex_add, ex_inv. cbn [en_remaining en_pods en_reqs en_taints en_ports].
   split; [|split].
-  - intros k. rewrite rget_rsub_from, map_app, rsum_app, I1 by exact Wp. lia.
+  - intros k. rewrite map_app. cbn [map]. rewrite rget_rsub_from, rsum_app, I1 by exact Wp. lia.
   - intros k. rewrite rget_rsub_from by exact Wp. pose proof (fits_spec _ _ F k). lia.
   - intros q Hq. apply in_app_or in Hq as [Hq|[<-|[]]].
     + destruct (I2 q Hq) as [Ht Hv]. split; [exact Ht|]. intros k v Hh. apply add_narrows in Hh. apply (Hv k v Hh).
